@@ -173,6 +173,11 @@ func (c *CombinedTupleReader) ReadStartingWithUser(
 
 	filteredTuples := make([]*openfgav1.Tuple, 0, len(c.contextualTuplesOrderedByObjectID))
 	for _, t := range filterTuples(c.contextualTuplesOrderedByObjectID, "", filter.Relation, userFilters) {
+		if len(userFilters) == 0 {
+			// filterTuples reads an empty list as "any user", a datastore reads an empty user filter
+			// as "no user": no stored tuple matches it, so no contextual tuple does either.
+			break
+		}
 		if tuple.GetType(t.GetKey().GetObject()) != filter.ObjectType {
 			continue
 		}
